@@ -3025,6 +3025,10 @@ class _Simu(_IObserver, _params.Updatable, ABC):
 
         self._Check_dofs(problemType, unknowns)
 
+        if len(dofs) == 0:
+            # the nodes do not bound any loaded element: nothing to add
+            return
+
         new_Bc = BoundaryCondition(
             problemType, nodes, dofs, unknowns, dofsValues, f"Neumann {description}"
         )
